@@ -231,12 +231,27 @@ def sl3456(F, R):
                   "an edge of the slice is not (source vertex, its edge's target, its edge's label) of an edge of the source graph: "
                   "the slice contains an edge the source lacks, or edges are mislabelled/reversed", detail)
             continue
-        if iter_adaptors(inner[1]):
-            R.bad("SL3", "SL3/Sodg::slice_some/edge-copy-restricted", e.where(), "not every edge of a kept vertex is considered for copying", detail)
+        member = {"v1": False, "v2": False}
+        bad_ad = []
+        for an, ex in iter_adaptors(inner[1]):
+            okf = False
+            if an == "filter" and ex:
+                cbf = F.bodies.get(strip_load(ex[0])[1]) if strip_load(ex[0])[0] == "closure" else None
+                if cbf is not None:
+                    summ = pred_summary(cbf)
+                    if len(summ) == 1:
+                        for f in summ[0]:
+                            if f[0] == "bool" and f[2] is True and strip_load(f[1])[0] == "call" and strip_load(f[1])[1].split("::")[-1] == "contains" and \
+                                    mentions(f[1], lambda y: y[0] == "field" and y[2] == "(tuple)::1" and mentions(y, lambda z: z == ("param", 2))):
+                                okf = True   # keeps exactly the edges whose target is a kept vertex
+                                member["v2"] = True
+            if not okf:
+                bad_ad.append(an)
+        if bad_ad:
+            R.bad("SL3", "SL3/Sodg::slice_some/edge-copy-restricted", e.where(), "not every edge of a kept vertex is considered for copying (%s)" % bad_ad, detail)
             continue
         # guards: nothing but membership in the visited set (and loop protocol)
         extra = []
-        member = {"v1": False, "v2": False}
         for f in e.facts:
             if is_iter_next_fact(f) or is_isempty_fact(f) or "Level" in repr(f):
                 continue
@@ -327,7 +342,7 @@ def sl3456(F, R):
         if t["callee"].get("path") == b.path:
             args = [strip_load(deref_addr(sl, a)) for a in sl.call_args(t, site)]
             cl = args[2] if len(args) > 2 else None
-            if cl is not None and cl[0] == "closure":
+            if cl is not None and cl[0] in ("closure", "fn"):
                 cb = F.bodies.get(cl[1])
                 if cb is not None:
                     rets = [strip_load(cb.expr_local(0, (r, cb.term_idx(r)))) for r in cb.returns]
